@@ -265,7 +265,13 @@ def terminals(tree, stream, **params):
 def tigerxml_begin(stream, **params):
     """The start of a tigerxml document. To be completed.
     """
-    stream.write(u"<?xml version='1.0'?>\n")
+    # declare the encoding the stream writes in: without a declaration
+    # XML parsers assume UTF-8
+    encoding = getattr(stream, 'encoding', None)
+    if encoding:
+        stream.write(u"<?xml version='1.0' encoding='%s'?>\n" % encoding)
+    else:
+        stream.write(u"<?xml version='1.0'?>\n")
     stream.write(u"<corpus>\n")
     stream.write(u"<body>\n")
 
